@@ -100,8 +100,6 @@ def read_rwms(path, prefix, version='2.0', names=None, **kwargs):
     else:
         rep_names = names
 
-    rep_names = sort_names(rep_names)
-
     print_err = 0
     if 'print_err' in kwargs:
         print_err = 1
@@ -1052,8 +1050,6 @@ def _read_flow_obs(path, prefix, c, dtr_cnfg=1, version="openQCD", obspos=0, sum
             rep_names = names
 
         deltas.append(Q_top)
-
-    rep_names = sort_names(rep_names)
 
     idl = [range(int(configlist[rep][r_start_index[rep]]), int(configlist[rep][r_stop_index[rep]]) + 1, 1) for rep in range(len(deltas))]
     deltas = [deltas[nrep][r_start_index[nrep]:r_stop_index[nrep] + 1] for nrep in range(len(deltas))]
